@@ -315,9 +315,9 @@ def deviation(ctx, d, b, k, line):
 def sim_part(ctx, d):
     """Returns (stats, violation-dict-or-None, broken-or-None)."""
     if ctx.tier == "quick":
-        batches = [(0, 1200, 400), (1000000, 12, 2000)]
+        batches = [(0, 900, 400), (3000000, 250, 400), (1000000, 10, 2000)]
     else:
-        batches = [(0, 40000, 400), (1000000, 600, 3000), (2000000, 10, 10000)]
+        batches = [(0, 36000, 400), (3000000, 4000, 400), (1000000, 600, 3000), (2000000, 10, 10000)]
     tot_sched = tot_events = nontriv = 0
     hashes = set()
     agg = dict(elections=0, commits=0, truncs=0, restarts=0, compactions=0, snapshots=0)
@@ -388,7 +388,7 @@ def sim_part(ctx, d):
 def cc_part(ctx, d):
     """Membership-change schedules (ProposeConfChange add/remove/joint, applied at commit): outside
     the proved model, so only the safety predicates on the observed states are evaluated."""
-    batches = [(7000000, 500, 400)] if ctx.tier == "quick" else [(7000000, 15000, 400), (8000000, 200, 3000)]
+    batches = [(7000000, 400, 400)] if ctx.tier == "quick" else [(7000000, 15000, 400), (8000000, 200, 3000)]
     tot = ev = conf = leaders = 0
     vev = vsw = vok = venv = vcfgmax = 0
     viol = None
